@@ -2,7 +2,7 @@
 CFG = {
     "modules": ["VaxisModel.Props.C08", "VaxisModel.Props.C08Fine", "VaxisModel.Props.C08Pools", "VaxisModel.Props.C08Live", "VaxisModel.Props.C08Spec", "VaxisModel.Props.C08FineChan", "VaxisModel.Props.C08Order", "VaxisModel.Props.C08Drive", "VaxisModel.Props.C08Payload", "VaxisModel.Witness.F29"],
     "extractors": ["C02"],
-    "drivers": ["C08"],
+    "drivers": ["C08", "C08Sched"],
     "trivial_prefix": ("Z |",),
     "rule": "scripted readers through ansi.NewParser: end of input or read error at every byte offset of 46 corpus streams and of "
             "generated streams (three chunkings), Close() issued while blocked in a read at every chunk boundary, four consumers "
